@@ -86,6 +86,59 @@ Theorem c01_identity_needs_profile :
 Proof. exact identity_needs_profile. Qed.
 Print Assumptions c01_identity_needs_profile.
 
+(* ---- round 4: how the options reach the client ---------------------------------------------------------
+   A client is a configuration dict (options of the SP written as True / False or as ANY text — true / yes / on / 1,
+   false / no / off / 0 / "" in any case, blanks around ignored, say a boolean; any other word says none — under
+   service/sp, or set for the SP on the loaded object; possibly a service/idp section next to it) loaded into a
+   configuration object of any class (SPConfig, IdPConfig, Config), with any current context (the class's own, the
+   type given to config_factory, one assigned by the application), handed to Saml2Client as object, through
+   config_factory, as file or as dict.  For every such client and every sequence of messages: identity iff the
+   signatures satisfy the options THE DEPLOYER WROTE FOR THE SP; a client with an unreadable option is not built
+   (fix 6bdc97cd) and yields no identity. *)
+Theorem c01_client : forall k ms, spec_client k ms (client_run k ms).
+Proof. exact client_holds. Qed.
+Print Assumptions c01_client.
+
+Theorem c01_spec_client_reflect : forall k ms ids, spec_client_b k ms ids = true <-> spec_client k ms ids.
+Proof. exact spec_client_b_iff. Qed.
+Print Assumptions c01_spec_client_reflect.
+
+(* class of the configuration object, assigned context, delivery and a second service section are irrelevant *)
+Theorem c01_surface_irrelevant :
+  forall d a p d' a' p' w1 w2 w3 o ms,
+  client_run {| k_deliver := d; k_assigned := a; k_proxy := p; k_wr := w1; k_wa := w2; k_wor := w3; k_only := o |} ms
+  = client_run {| k_deliver := d'; k_assigned := a'; k_proxy := p'; k_wr := w1; k_wa := w2; k_wor := w3; k_only := o |} ms.
+Proof. exact surface_irrelevant. Qed.
+Print Assumptions c01_surface_irrelevant.
+
+(* ... and so is the spelling of the values *)
+Theorem c01_spelling_irrelevant :
+  forall k k' ms, meant_config k = meant_config k' -> client_run k ms = client_run k' ms.
+Proof. exact spelling_irrelevant. Qed.
+Print Assumptions c01_spelling_irrelevant.
+
+(* the clients of the earlier rounds (SPConfig from a dict) are an instance *)
+Theorem c01_client_of : forall c ms, client_run (client_of c) ms = sp_run c ms.
+Proof. exact client_of_run. Qed.
+Print Assumptions c01_client_of.
+
+(* an option the deployer wrote as a word that says no boolean: no client, no identity from any message *)
+Theorem c01_unreadable_no_identity :
+  forall k ms, meant_config k = None -> client_run k ms = map (fun _ => false) ms.
+Proof. exact unreadable_no_identity. Qed.
+Print Assumptions c01_unreadable_no_identity.
+
+(* what Base.__init__ reads (fix 6bdc97cd) is what the text of the property means, for every str *)
+Theorem c01_reading : forall k, read_config k = meant_config k.
+Proof. exact read_config_meant. Qed.
+Print Assumptions c01_reading.
+
+(* the reading before the fix (kept as Model.client_run_v0) agrees on the spellings of the earlier rounds *)
+Theorem c01_reading_v0_old_spellings :
+  forall k ms, old_spelling (k_wr k) -> old_spelling (k_wa k) -> old_spelling (k_wor k) -> client_run_v0 k ms = client_run k ms.
+Proof. exact reading_v0_agrees_on_old_spellings. Qed.
+Print Assumptions c01_reading_v0_old_spellings.
+
 (* ---- source tie, translator v2: the functions below are re-translated from the source text of /repo on every
    run (coq/gen/C01Src2.v, C01Src2p.v); each theorem says that the translated function, applied to the encoded
    model input, yields the encoded output of the model function it mirrors (proofs: C01/Source2.v) ---- *)
@@ -182,3 +235,36 @@ Theorem c01_source2_chain :
   = parse_message c m.
 Proof. exact src2_chain_parse_message. Qed.
 Print Assumptions c01_source2_chain.
+
+(* round 4: client_base.py Base.__init__ on a configuration OBJECT: self.config.getattr answers per context (the
+   three options as stored for the SP under "sp", `other` under "idp" / "aa" / "", the current context for None): the
+   options of the SP section are read as Model.as_optv reads them — a str by what it says, SAMLError for an unreadable
+   word —, whatever the current context and whatever sits elsewhere; for the sampled stored triples (Source2.all_triples) *)
+Theorem c01_source2_base_init_object :
+  forall (o_wr o_wa o_wor other : sval) (cur : octx),
+  listed_b (o_wr, o_wa, o_wor) = true -> In other all_other ->
+  state_of (base_init_ctx o_wr o_wa o_wor other cur) = base_init_expected o_wr o_wa o_wor.
+Proof. exact base_init_ctx_state. Qed.
+Print Assumptions c01_source2_base_init_object.
+
+Theorem c01_source2_base_init_client :
+  forall k : client, listed k ->
+  match read_config k with
+  | Some c => options_of (state_of (base_init_client k))
+              = PList [PBool (resolve (c_wr c) want_response_signed_default); PBool (resolve (c_wa c) want_assertions_signed_default);
+                       PBool (resolve (c_wor c) want_assertions_or_response_signed_default)]
+  | None => state_of (base_init_client k) = PExc "SAMLError"
+  end.
+Proof. exact src2_base_init_client_is_model. Qed.
+Print Assumptions c01_source2_base_init_client.
+
+(* the chain from the configuration object of a client to the verdict = the model of that client *)
+Theorem c01_source2_chain_client :
+  forall (k : client) (c : config) (m : msg), listed k -> read_config k = Some c ->
+  let r := look (resolve (c_only c) only_use_keys_in_metadata_default) (r_who m) (r_schema_ok m) (m_rs m) in
+  let a := look (resolve (c_only c) only_use_keys_in_metadata_default) (a_issuer m) (has_issuer (a_who m)) (m_as m) in
+  match outcome_of (chain_run (state_of (base_init_client k)) r a (issuers_match m) (m_bind m))
+  with RIdentity => true | RExc _ => false end
+  = parse_message c m.
+Proof. exact src2_chain_client. Qed.
+Print Assumptions c01_source2_chain_client.
